@@ -840,6 +840,108 @@ pub fn run(cfg: &Cfg) -> Report {
     }
   }
 
+  // ---------------------------------------------------------------- log and exp, through FEEL, judged against
+  // enclosures of the true value (Dmn/Driver/Transcend.lean): two units in the last place; null exactly outside
+  // the domain
+  {
+    let n_t = if thorough { 20_000 } else { 900 };
+    let mut args: Vec<(&'static str, D)> = vec![];
+    for t in ["1", "2", "10", "0.5", "0.1", "100", "2.718281828459045235360287471352662", "1.000000000000000000000000000000001", "0.9999999999999999999999999999999999", "1E-6176", "9.999999999999999999999999999999999E+6144", "1.0", "3", "7E+100", "1.5E-300"] {
+      if let Some(DecV::Fin(d)) = parse_sci(&dec_to_string(&dec_from_string(t))) {
+        args.push(("log", d));
+      }
+    }
+    for t in ["0", "1", "-1", "0.5", "10", "100", "-100", "1000", "14000", "-14000", "1E-40", "-1E-40", "0.6931471805599453094172321214581766", "2.302585092994045684017991454684364", "12345.6789", "-0.000001", "7", "2.5"] {
+      if let Some(DecV::Fin(d)) = parse_sci(&dec_to_string(&dec_from_string(t))) {
+        args.push(("exp", d));
+      }
+    }
+    for i in 0..n_t {
+      let class = CLASSES[i % CLASSES.len()];
+      let (a, b) = pair(&mut rng, class);
+      let x = if rng.chance(1, 2) { a } else { b };
+      if rng.chance(1, 2) {
+        // the logarithm of any finite number (positive ones have one)
+        args.push(("log", x));
+      } else {
+        // arguments of exp where the result is a normal number: |x| below 14 000
+        let len = 1 + rng.below(34) as usize;
+        let c = digits(&mut rng, len);
+        let e = rng.range(-40, 4) as i32 - len as i32 + 1;
+        args.push(("exp", D::new(rng.chance(1, 2), &c, e)));
+      }
+    }
+    // zero and negative arguments of log
+    args.push(("log", D::new(false, "0", 0)));
+    args.push(("log", D::new(true, "1", 0)));
+    args.push(("log", D::new(true, "25", -1)));
+    let mut reqs = vec![];
+    let mut kept: Vec<(&'static str, D, D)> = vec![];
+    for (f, x) in &args {
+      let xv = match number_of(x) {
+        Some(n) => n,
+        None => continue,
+      };
+      let expr = format!("{}(a)", f);
+      rep.hit(&format!("op:{}", f));
+      let positive = !x.neg && x.coeff.chars().any(|c| c != '0');
+      match guarded(|| feel_eval(&[("a", Value::Number(xv))], &expr)) {
+        Ok(Ok(Value::Number(n))) => match observe(&n) {
+          Some(DecV::Fin(r)) => {
+            if *f == "log" && !positive {
+              rep.disagree(Kind::ImplVsSpec, "log", "log of zero or of a negative number is not null", &format!("log({})", x.to_sci_input()), &r.to_sci_input(), "null");
+            } else {
+              reqs.push(format!("(c02 judge{} {} {})", if *f == "log" { "ln" } else { "exp" }, x.wire(), r.wire()));
+              kept.push((*f, x.clone(), r));
+            }
+          }
+          _ => {
+            // the known overflow finding keeps its signature (`FEEL exp() yields Infinity instead of null`)
+            let shown = format!("{:?}", n);
+            let what = if shown.contains("Inf") { "Infinity" } else { "NaN" };
+            rep.disagree(Kind::ImplVsSpec, "feel_arith_finite", &format!("FEEL {}() yields {} instead of null", f, what), &format!("{}({})", f, x.to_sci_input()), &shown, "a finite number or null")
+          }
+        },
+        Ok(Ok(Value::Null(_))) => {
+          // null is right for log outside its domain and for exp beyond the range
+          let in_domain = if *f == "log" {
+            positive
+          } else {
+            // |x| < 14 000: the result is a normal decimal128 number
+            let mag = x.coeff.trim_start_matches('0').len() as i32 + x.exp;
+            mag <= 4 && !(mag == 5)
+          };
+          if in_domain && (*f == "log" || x.coeff.trim_start_matches('0').len() as i32 + x.exp <= 4) {
+            rep.disagree(Kind::ImplVsSpec, *f, &format!("{}() of a number inside its domain is null", f), &format!("{}({})", f, x.to_sci_input()), "null", "a number within two units in the last place of the true value");
+          }
+        }
+        Ok(Ok(other)) => rep.disagree(Kind::ImplVsSpec, *f, &format!("{}() yields a value that is not a number", f), &format!("{}({})", f, x.to_sci_input()), &value_show(&other), "a number or null"),
+        Ok(Err(e)) => rep.disagree(Kind::ImplVsModel, *f, "the FEEL text of the case does not evaluate", &expr, &e, "a value"),
+        Err(p) => rep.disagree(Kind::ImplVsSpec, *f, &format!("{}() panics", f), &format!("{}({})", f, x.to_sci_input()), &p, "a number or null"),
+      }
+    }
+    let answers = model.ask_batch(&reqs);
+    for (((f, x, r), req), ans) in kept.iter().zip(reqs.iter()).zip(answers.iter()) {
+      rep.case(req, true);
+      if ans.contains("false") {
+        rep.disagree(
+          Kind::ImplVsSpec,
+          *f,
+          &format!("{}() differs from the true value by more than two units in the last place", f),
+          &format!("{}({})", f, x.to_sci_input()),
+          &r.to_sci_input(),
+          "within two units in the 34th digit of the true value",
+        );
+      } else if ans.contains("na") {
+        rep.hit(&format!("{}:not-judged", f));
+      } else if ans.contains("true") {
+        rep.hit(&format!("{}:judged-ok", f));
+      } else {
+        rep.disagree(Kind::ImplVsModel, *f, "driver-error", req, "", ans);
+      }
+    }
+  }
+
   // ---------------------------------------------------------------- comparison
   let n_cmp = if thorough { 200_000 } else { 6_000 };
   let mut cmp_cases: Vec<(D, D)> = vec![];
@@ -1003,7 +1105,7 @@ pub fn run(cfg: &Cfg) -> Report {
       }
     }
   }
-  rep.extra.insert("unproved_ops".into(), json!(["exp", "log", "pow_inexact"]));
+  rep.extra.insert("unproved_ops".into(), json!(["exp and log: judged against computed enclosures of the true value (Driver/Transcend.lean), not modelled", "pow_inexact"]));
   rep.exhaustive = false;
   rep.model_requests = model.requests;
   rep
